@@ -1665,6 +1665,7 @@ func rawJobsC01(tier string) []string {
 	add(base+",mss=24,w=2x36,pd=3x20,ts=1,b=1", 2)
 	add(base+",mss=24,w=72,pd=3x20,psack=1,sack=1,active=0,b=1", 2)
 	add(base+",mss=24,w=48,iss=4294967270,piss=2147483640,pd=2x20,b=1", 2)
+	add(base+",mss=24,w=24,pd=3x20,piss=4294967270,b=1", 2) // the peer's data crosses 2^32 (overlaps, duplicates, reordering)
 	add(base+",mss=536,w=700,pd=2x300,b=1", 2)
 	add(base+",mss=24,w=200+50,sndbuf=64,pd=20,b=1", 2) // writes larger than the free send buffer: partial acceptance
 	// the sender's own sequence numbers cross 2^32 inside the first of several writes
